@@ -153,6 +153,49 @@ def _io_calls(fn, names):
     return sorted(out, key=functools.cmp_to_key(cmp))
 
 
+def rule_init_order(ctx, cls=M, units=None):
+    """a constructor body does not read one of the object's fields before the statement that assigns it (the field still holds
+    its default value: `first_key = n ? *in : 0` evaluated while n is still 0 stores 0 in the object and in the file header)"""
+    obs = []
+    us = units if units is not None else ctx.units
+    seen = 0
+    for u in us:
+        for f in u.fns(cls + '::' + cls.split('::')[-1]):
+            if f.d.get('special') in ('copy_ctor', 'move_ctor', 'default_ctor') or f.d.get('implicit') or not f.cfg:
+                continue
+            g = graph(f)
+            assigns = {}
+            for i in f.all_ids():
+                nd = f.n(i)
+                if nd['c'] == 'BinaryOperator' and nd['op'] == '=' and reachable(f, i):
+                    lt = strip_cast(f.term(nd['ch'][0], inline=False))
+                    if lt[0] == 'field' and lt[2] == THIS:
+                        assigns.setdefault(lt[1], []).append(i)
+            bad = []
+            for fld, asg in assigns.items():
+                first = min(asg, key=lambda a: f.n(a)['l'])
+                lhs_nodes = set(f.walk(f.n(first)['ch'][0]))
+                for j in f.all_ids():
+                    nj = f.n(j)
+                    if nj['c'] == 'MemberExpr' and nj.get('dk') == 'field' and nj.get('n') == fld and j not in lhs_nodes and reachable(f, j):
+                        if strip_cast(f.term(j, inline=False)) != ('field', fld, THIS):
+                            continue
+                        # a read that executes before the first assignment on every path reaching that assignment
+                        if g.before(j, first) and not any(j in set(f.walk(f.n(a)['ch'][0])) for a in asg):
+                            bad.append((j, fld, first))
+            seen += 1
+            if bad:
+                j, fld, first = bad[0]
+                obs.append(Ob('CTOR-AGREE', f, j, 'no field of the object is read in a constructor body before the statement that assigns it',
+                              f"`{fld}` is read at line {f.n(j)['l']} but assigned at line {f.n(first)['l']}: it still holds its default value there", VIOLATED, arm='init-order'))
+            else:
+                obs.append(Ob('CTOR-AGREE', f, 0, 'no field of the object is read in a constructor body before the statement that assigns it',
+                              f"{len(assigns)} fields assigned in the body, each before its first read", OK, arm='init-order'))
+    if seen == 0:
+        raise AnalysisBroken(f"no constructor of {cls} with a body found")
+    return obs
+
+
 def rule_ser_agree(ctx):
     obs = []
     for u in ctx.units:
@@ -369,7 +412,7 @@ def rule_readonly_reopen(ctx):
 
 
 def rules_c12(ctx):
-    return rule_ctor_agree(ctx) + rule_ser_agree(ctx) + rule_readonly_reopen(ctx)
+    return rule_ctor_agree(ctx) + rule_init_order(ctx) + rule_ser_agree(ctx) + rule_readonly_reopen(ctx)
 
 
 # ------------------------------------------------------------------------------------------ C11: multiset queries
